@@ -9,7 +9,12 @@
 (*   prune   (repository/prune.go PlanPrune + Execute):                    *)
 (*           Plan, DeleteUnreferenced, RepackUpload, RepackSaveIndex,      *)
 (*           RewriteSave, RewriteDelete, DeletePack                        *)
-(*   forget  RemoveSnapshot;  tag/rewrite  SaveNew, RemoveOld              *)
+(*   forget  RemoveSnapshot;  tag  SaveNew, RemoveOld                      *)
+(*   rewrite / repair snapshots (cmd_rewrite.go filterAndReplaceSnapshot): *)
+(*           new tree blobs saved like a backup does (ListIndex, LoadIndex,*)
+(*           SaveBlob, UploadPack, SaveIndex), then SaveSnapshot with the  *)
+(*           Original field, then with --forget RemoveOld; without --forget*)
+(*           it runs next to backups (append lock only)                    *)
 (*   reader  ListSnapshots, ListIndex, LoadIndexFile, Use                  *)
 (*   Crash   of any process at any point (local state lost, files stay)    *)
 (* Locking is abstracted to its contract (Lock.tla models the protocol):   *)
@@ -23,11 +28,12 @@ CONSTANTS Proc,        \* process ids
           Roots,       \* root trees that backups may snapshot
           Kids,        \* tree blob |-> set of child blobs (fixed content universe)
           MaxPacks, MaxIdx, MaxSnaps,
-          CanBackup, CanRead, CanPrune, CanForget, CanTag,   \* which processes may take which role
+          CanBackup, CanRead, CanPrune, CanForget, CanTag, CanRewrite,   \* which processes may take which role
           Budget,      \* proc |-> how many commands it may start (bounds the model)
           Variant      \* "ok" | "snap_before_index" | "index_before_pack"
                        \* | "prune_delete_first" | "prune_drop_index_first"
                        \* | "tag_remove_first" | "reader_index_first"
+                       \* | "rewrite_remove_first"
 
 VARIABLES pc,          \* proc |-> control state
           role,        \* proc |-> "none" | "backup" | "prune" | "forget" | "tag" | "reader"
@@ -56,7 +62,10 @@ ReachC(t) == ReachK(Kids, t)
 Idle(p)  == pc[p] = "idle"
 Others(p) == Proc \ {p}
 Exclusive(p) == \A q \in Others(p) : Idle(q)
-NoExclusiveRunning == \A q \in Proc : role[q] \notin {"prune", "forget", "tag"}
+NoExclusiveRunning == \A q \in Proc : role[q] \notin {"prune", "forget", "tag", "rewritef"}
+IsRewrite(p) == role[p] \in {"rewrite", "rewritef"}
+\* the tree a backup / rewrite run is storing
+Target(p) == IF IsRewrite(p) THEN told[p].tree ELSE goal[p]
 
 Set(f, p, v) == [f EXCEPT ![p] = v]
 
@@ -98,7 +107,7 @@ Known(p) == BlobsOf(mem[p]) \cup have[p]
 \* SaveBlob: AddPending is a test-and-set on (index + pending); a tree is saved
 \* after its children (archiver saves a directory after its entries)
 BSaveBlob(p, b) ==
-  /\ pc[p] = "b_run" /\ b \in ReachC(goal[p]) /\ b \notin Known(p)
+  /\ pc[p] = "b_run" /\ b \in ReachC(Target(p)) /\ b \notin Known(p)
   /\ (b \in DOMAIN Kids => Kids[b] \subseteq Known(p))
   /\ open' = Set(open, p, open[p] \cup {b}) /\ have' = Set(have, p, have[p] \cup {b})
   /\ UNCHANGED <<storage, pc, role, goal, lst, mem, unsaved, seen, plan, newsnap, told, runs, nextP, nextI, nextS>>
@@ -127,13 +136,15 @@ BSaveIndex(p) ==
 \* the snapshot is saved after flush: nothing open, nothing unsaved
 BSaveSnapshot(p) ==
   /\ pc[p] = "b_run" /\ nextS <= MaxSnaps
-  /\ ReachC(goal[p]) \subseteq Known(p)
+  /\ ReachC(Target(p)) \subseteq Known(p)
   /\ open[p] = {}
   /\ (Variant # "snap_before_index" => unsaved[p] = {})
-  /\ SaveSnap(FreshS, goal[p], NoSnap)
+  /\ SaveSnap(FreshS, Target(p), IF IsRewrite(p) THEN told[p].orig ELSE NoSnap)
   /\ nextS' = nextS + 1
-  /\ pc' = Set(pc, p, IF unsaved[p] = {} THEN "done" ELSE "b_run")
-  /\ UNCHANGED <<role, goal, lst, mem, open, unsaved, have, seen, plan, newsnap, told, runs, nextP, nextI>>
+  /\ newsnap' = Set(newsnap, p, IF IsRewrite(p) THEN FreshS ELSE newsnap[p])
+  /\ pc' = Set(pc, p, IF unsaved[p] # {} THEN "b_run"
+                      ELSE IF role[p] = "rewritef" /\ Variant # "rewrite_remove_first" THEN "t_remove" ELSE "done")
+  /\ UNCHANGED <<role, goal, lst, mem, open, unsaved, have, seen, plan, told, runs, nextP, nextI>>
 
 Finish(p) == pc[p] = "done" /\ Reset(p) /\ UNCHANGED <<storage, runs, nextP, nextI, nextS>>
 
@@ -268,6 +279,30 @@ TRemoveOld(p) ==
   /\ pc' = Set(pc, p, IF Variant = "tag_remove_first" THEN "t_save" ELSE "done")
   /\ UNCHANGED <<role, goal, lst, mem, open, unsaved, have, seen, plan, newsnap, told, runs, nextP, nextI, nextS>>
 
+\* ------------------------------------------- rewrite / repair snapshots
+\* snapshot s is replaced by one with root t (any tree of the universe: the filtered / repaired tree); the new
+\* snapshot records the replaced id or the Original that one already carries
+RwStart(p, s, t, f) ==
+  /\ runs[p] < Budget[p] /\ runs' = Set(runs, p, runs[p] + 1)
+  /\ p \in CanRewrite /\ Idle(p) /\ s \in DOMAIN snaps /\ t \in Roots
+  /\ IF f THEN Exclusive(p) ELSE NoExclusiveRunning
+  /\ role' = Set(role, p, IF f THEN "rewritef" ELSE "rewrite") /\ goal' = Set(goal, p, s)
+  /\ \E o \in {s, OrigOf(snaps, s)} : told' = Set(told, p, [tree |-> t, orig |-> o])
+  /\ pc' = Set(pc, p, IF f /\ Variant = "rewrite_remove_first" THEN "w_remove" ELSE "b_list")
+  /\ UNCHANGED <<storage, lst, mem, open, unsaved, have, seen, plan, newsnap, nextP, nextI, nextS>>
+
+\* broken variant: the old snapshot is removed before the new one exists
+WRemoveFirst(p) ==
+  /\ pc[p] = "w_remove" /\ goal[p] \in DOMAIN snaps
+  /\ RemoveSnap(goal[p]) /\ pc' = Set(pc, p, "b_list")
+  /\ UNCHANGED <<role, goal, lst, mem, open, unsaved, have, seen, plan, newsnap, told, runs, nextP, nextI, nextS>>
+
+\* C26 for rewrite: while a rewrite runs, the snapshot it replaces or its replacement exists
+RewriteNeverLoses ==
+  \A p \in Proc : IsRewrite(p) =>
+     \/ goal[p] \in DOMAIN snaps
+     \/ (newsnap[p] # "" /\ newsnap[p] \in DOMAIN snaps)
+
 \* C26: at every point of a tag run the old or the new snapshot exists
 TagNeverLoses ==
   \A p \in Proc : (role[p] = "tag" /\ told[p] # NoOld) =>
@@ -303,6 +338,7 @@ Next ==
     \/ PRewriteSave(p) \/ PRewriteDelete(p) \/ PDeletePack(p)
     \/ (\E s \in DOMAIN snaps : Forget(p, s))
     \/ (\E s \in DOMAIN snaps : TStart(p, s)) \/ TLoad(p) \/ TSaveNew(p) \/ TRemoveOld(p)
+    \/ (\E s \in DOMAIN snaps, t \in Roots, f \in BOOLEAN : RwStart(p, s, t, f)) \/ WRemoveFirst(p)
     \/ Crash(p)
 
 Spec == Init /\ [][Next]_vars
